@@ -195,3 +195,112 @@ func pathAvoidingSuccess(fn *ssa.Function, sink func(ssa.Instruction, *an.PathSt
 	w, found := q.Find()
 	return w, found, len(calls)
 }
+
+type step struct {
+	name string
+	is   func(ssa.Instruction) bool
+}
+
+// seqOnAllPaths: on every path (under consts) from entry to a sink, the steps occur in this order.
+func seqOnAllPaths(fn *ssa.Function, consts map[ssa.Value]*ssa.Const, sink func(ssa.Instruction, *an.PathState) bool, steps []step) (ok bool, missing string, w []string) {
+	for i, s := range steps {
+		q := &an.PathQ{Fn: fn, Consts: consts, Sink: sink,
+			Cut: func(in ssa.Instruction, _ *an.PathState) bool { return s.is(in) }}
+		if i == 0 {
+			q.StartEntry = true
+		} else {
+			prev := steps[i-1]
+			an.Instrs(fn, func(in ssa.Instruction) {
+				if prev.is(in) {
+					q.StartAfter = append(q.StartAfter, in)
+				}
+			})
+			if len(q.StartAfter) == 0 {
+				return false, prev.name + " (not present)", nil
+			}
+		}
+		if w, found := q.Find(); found {
+			if i == 0 {
+				return false, s.name, w
+			}
+			return false, s.name + " after " + steps[i-1].name, w
+		}
+	}
+	return true, "", nil
+}
+
+// mapRangeLoops returns the range loops in fn iterating over a load of map field f.
+func mapRangeLoops(fn *ssa.Function, f *types.Var) []*an.IndexLoop {
+	var out []*an.IndexLoop
+	for _, l := range an.NaturalLoops(fn) {
+		il, ok := an.AsIndexLoop(l)
+		if ok && il.Iter != nil && isLoadOfField(il.Iter.X, f) {
+			out = append(out, il)
+		}
+	}
+	return out
+}
+
+// loopDoesEach: every iteration of il executes an instruction satisfying pred(instr, elems), and the loop
+// leaves only by exhaustion.
+func loopDoesEach(fn *ssa.Function, il *an.IndexLoop, pred func(in ssa.Instruction, elems []ssa.Value) bool) (bool, string) {
+	if ok, _ := il.OnlyExhaustionExit(); !ok {
+		return false, "the loop can be left before every element was visited"
+	}
+	if !il.WholeOK {
+		return false, "the loop does not cover the whole collection"
+	}
+	elems := il.Elems()
+	q := &an.PathQ{Fn: fn, StartEdges: []an.Edge{{From: il.Header, To: il.Body}},
+		SinkEdge: func(e an.Edge, _ *an.PathState) bool { return e.To == il.Header },
+		Cut:      func(in ssa.Instruction, _ *an.PathState) bool { return pred(in, elems) }}
+	if _, found := q.Find(); found {
+		return false, "an iteration can complete without the required call on its element"
+	}
+	return true, ""
+}
+
+func valueIn(v ssa.Value, set []ssa.Value) bool {
+	for _, s := range set {
+		if an.SameValue(v, s) {
+			return true
+		}
+	}
+	return false
+}
+
+// isCallToOn: instruction is a static call to fn with receiver satisfying recvOK.
+func isCallToOn(in ssa.Instruction, target *ssa.Function, recvOK func(ssa.Value) bool) bool {
+	ci, ok := in.(ssa.CallInstruction)
+	if !ok || !an.IsCallTo(ci, target) {
+		return false
+	}
+	if _, isGo := in.(*ssa.Go); isGo {
+		return false
+	}
+	return recvOK == nil || recvOK(recvArg(ci))
+}
+
+// isInvokeOn: instruction is an interface method call `name` on a value satisfying recvOK.
+func isInvokeOn(in ssa.Instruction, iface, name string, recvOK func(ssa.Value) bool) bool {
+	ci, ok := in.(ssa.CallInstruction)
+	if !ok || !an.IsInvokeOf(ci, iface, name) {
+		return false
+	}
+	if _, isGo := in.(*ssa.Go); isGo {
+		return false
+	}
+	return recvOK == nil || recvOK(ci.Common().Value)
+}
+
+func isBuiltinCall(in ssa.Instruction, name string) (*ssa.Call, bool) {
+	call, ok := in.(*ssa.Call)
+	if !ok {
+		return nil, false
+	}
+	bi, ok := call.Call.Value.(*ssa.Builtin)
+	if !ok || bi.Name() != name {
+		return nil, false
+	}
+	return call, true
+}
